@@ -468,6 +468,43 @@ pub fn check_reposition(c: &RepoCase, l: &mut Local) -> Result<(), String> {
             return Err(format!("reposition moved {} of token {name} for the owner; old range returns {wd}, new range costs {cst}: expected {want}", d(k)));
         }
     }
+    // the record the program emits reports exactly these amounts (C16: user-facing quantities in events equal the amounts moved)
+    {
+        use anchor_lang::Discriminator;
+        let ev = o.events.iter().find(|e| e.len() == 186 && e[..8] == *whirlpool::events::LiquidityRepositioned::DISCRIMINATOR).ok_or("no LiquidityRepositioned event")?;
+        let d = &ev[8..];
+        let u64_at = |o: usize| u64::from_le_bytes(d[o..o + 8].try_into().unwrap());
+        let i32_at = |o: usize| i32::from_le_bytes(d[o..o + 4].try_into().unwrap());
+        let u128_at = |o: usize| u128::from_le_bytes(d[o..o + 16].try_into().unwrap());
+        let leg = |tf, wd: u64, cst: u64| -> (u64, u64, bool) {
+            if cst >= wd {
+                let inc = smallest_included(tf, cst - wd).unwrap_or(0);
+                (inc, fee_of(tf, inc), true)
+            } else {
+                (wd - cst, fee_of(tf, wd - cst), false)
+            }
+        };
+        let got = (
+            (d[0..32].to_vec(), d[32..64].to_vec()),
+            (i32_at(64), i32_at(68), i32_at(72), i32_at(76)),
+            (u128_at(80), u128_at(96)),
+            (u64_at(112), u64_at(120), u64_at(128), u64_at(136)),
+            (u64_at(144), u64_at(152), d[160] != 0),
+            (u64_at(161), u64_at(169), d[177] != 0),
+        );
+        let want = (
+            (pool.key.to_bytes().to_vec(), info.position.to_bytes().to_vec()),
+            (info.lower, info.upper, nlo, nhi),
+            (cur, liq),
+            (wa, wb, ca, cb),
+            leg(tfa, wa, ca),
+            leg(tfb, wb, cb),
+        );
+        if got != want {
+            return Err(format!("LiquidityRepositioned event {got:?} differs from what the instruction did {want:?}"));
+        }
+        l.count("reposition/event_checked");
+    }
     l.count("reposition/at_bounds_ok");
     if wa == ca && wa > 0 || wb == cb && wb > 0 {
         l.count("reposition/one_token_nets_to_zero");
@@ -494,7 +531,7 @@ pub fn check_reposition(c: &RepoCase, l: &mut Local) -> Result<(), String> {
     Ok(())
 }
 
-fn repo_case() -> BoxedStrategy<RepoCase> {
+pub fn repo_case() -> BoxedStrategy<RepoCase> {
     let plain = (history_strategy(false, false, 16), prop_oneof![3 => Just(0u8), 1 => Just(1u8)]).prop_map(|(mut h, mk)| {
         h.spec.mint_kind = mk;
         h
@@ -526,7 +563,7 @@ pub fn def() -> CheckDef {
                amounts (A over [clamp(p),pu], B over [pl,clamp(p)]) rounded up for +L and down for -L, one-sidedness, round trip returns <= paid and loses <= 1 per \
                token, estimate == largest liquidity whose cost fits both maxima (bisection on BigUint).  Instruction level on states reached by generated \
                histories (SPL, Token-2022 and transfer-fee / transfer-hook mints: maxima are compared with the fee-included request, minima with the fee-excluded receipt): increase with token_max = cost succeeds and moves exactly the cost, cost-1 fails; decrease with token_min = return succeeds, return+1 \
-               fails; by-token-amounts adds exactly the largest fitting liquidity, respects the price window; reposition_liquidity_v2 (SPL and Token-2022 fee mints; new liquidity generated, equal to the old, or sized so that what the old range pays out just covers the new range): accepted with minima = what the old range returns (net of transfer fee) and maxima = what the new range costs (plus the fee on the net amount sent), owner's balances move by exactly the net amounts, each bound missed by one is refused.  Non-trivial (fn) = Ok with both tokens non-zero, or \
+               fails; by-token-amounts adds exactly the largest fitting liquidity, respects the price window; reposition_liquidity_v2 (SPL and Token-2022 fee mints; new liquidity generated, equal to the old, or sized so that what the old range pays out just covers the new range): accepted with minima = what the old range returns (net of transfer fee) and maxima = what the new range costs (plus the fee on the net amount sent), owner's balances move by exactly the net amounts, the LiquidityRepositioned event reports exactly these quantities, each bound missed by one is refused.  Non-trivial (fn) = Ok with both tokens non-zero, or \
                shifted state, or L >= 2^64; (ix) = each boundary pair evaluated.",
         assumptions: vec!["H1 re-export hook for the Pinocchio copy", "nsvm runtime as in DESIGN.md §5"],
         subs: vec![
